@@ -1,6 +1,7 @@
 package ref
 
 import (
+	"encoding/json"
 	"fmt"
 	"regexp"
 	"strings"
@@ -195,10 +196,220 @@ func ValidateOpenAPI(oa interface{}, catalog interface{}) OAReport {
 			}
 		}
 	}
+	SchemaPositions(top, func(w string, v interface{}) {
+		CheckSchemaObject(w, v, func(rule, text string) { errf(rule, "%s", text) }, func(k string) { rep.Counts[k]++ })
+	})
 	return rep
 }
 
 func unescapeRef(s string) string {
 	s = strings.ReplaceAll(s, "~1", "/")
 	return strings.ReplaceAll(s, "~0", "~")
+}
+
+// ---- Schema Object structure (OpenAPI 3.0.3, section 4.7.24) ----
+
+var oaSchemaKeys = map[string]string{
+	"title": "string", "multipleOf": "number", "maximum": "number", "exclusiveMaximum": "bool", "minimum": "number", "exclusiveMinimum": "bool",
+	"maxLength": "uint", "minLength": "uint", "pattern": "string", "maxItems": "uint", "minItems": "uint", "uniqueItems": "bool",
+	"maxProperties": "uint", "minProperties": "uint", "required": "strings", "enum": "array", "type": "type", "allOf": "schemas", "oneOf": "schemas",
+	"anyOf": "schemas", "not": "schema", "items": "schema", "properties": "schemamap", "additionalProperties": "boolOrSchema", "description": "string",
+	"format": "string", "default": "any", "nullable": "bool", "discriminator": "any", "readOnly": "bool", "writeOnly": "bool", "xml": "any",
+	"externalDocs": "any", "example": "any", "deprecated": "bool",
+}
+
+var oaTypes = map[string]bool{"array": true, "boolean": true, "integer": true, "number": true, "object": true, "string": true}
+
+// CheckSchemaObject validates one Schema Object (or Reference Object) recursively; report gets "rule: text" lines.
+func CheckSchemaObject(w string, v interface{}, report func(rule, text string), count func(string)) {
+	o, ok := v.(*Obj)
+	if !ok {
+		report("schema-not-object", fmt.Sprintf("%s is %T, not an object", w, v))
+		return
+	}
+	if _, isRef := o.M["$ref"]; isRef {
+		if len(o.Keys) != 1 {
+			report("schema-ref-with-siblings", fmt.Sprintf("%s: a Reference Object has other keys besides $ref: %v", w, o.Keys))
+		}
+		return
+	}
+	count("schema_objects")
+	for _, k := range o.Dup {
+		report("schema-duplicate-key", fmt.Sprintf("%s has key %q twice", w, k))
+	}
+	for _, k := range o.Keys {
+		kind, known := oaSchemaKeys[k]
+		val := o.M[k]
+		if !known {
+			if strings.HasPrefix(k, "x-") {
+				continue
+			}
+			report("schema-unknown-key", fmt.Sprintf("%s has key %q, which is not a Schema Object field", w, k))
+			continue
+		}
+		bad := func(want string) {
+			report("schema-field-type:"+k, fmt.Sprintf("%s.%s must be %s, is %v", w, k, want, Compact(val)))
+		}
+		switch kind {
+		case "string":
+			if _, ok := val.(string); !ok {
+				bad("a string")
+			}
+		case "bool":
+			if _, ok := val.(bool); !ok {
+				bad("a boolean")
+			}
+		case "number", "uint":
+			n, ok := val.(json.Number)
+			if !ok {
+				bad("a number")
+			} else if kind == "uint" && (strings.ContainsAny(string(n), ".eE-")) {
+				bad("a non-negative integer")
+			}
+		case "strings":
+			a, ok := val.([]interface{})
+			if !ok || len(a) == 0 {
+				bad("a non-empty array of strings")
+				break
+			}
+			seen := map[string]bool{}
+			for _, e := range a {
+				s, ok := e.(string)
+				if !ok {
+					bad("an array of strings")
+					break
+				}
+				if seen[s] {
+					report("schema-required-duplicate", fmt.Sprintf("%s.required names %q twice", w, s))
+				}
+				seen[s] = true
+			}
+		case "array":
+			if a, ok := val.([]interface{}); !ok || len(a) == 0 {
+				bad("a non-empty array")
+			}
+		case "type":
+			s, ok := val.(string)
+			if !ok || !oaTypes[s] {
+				bad("one of array, boolean, integer, number, object, string")
+			}
+			if s == "array" {
+				if _, has := o.M["items"]; !has {
+					report("schema-array-without-items", fmt.Sprintf("%s has type array but no items", w))
+				}
+			}
+		case "schemas":
+			a, ok := val.([]interface{})
+			if !ok || len(a) == 0 {
+				bad("a non-empty array of schemas")
+				break
+			}
+			for i, e := range a {
+				CheckSchemaObject(fmt.Sprintf("%s.%s[%d]", w, k, i), e, report, count)
+			}
+		case "schema":
+			CheckSchemaObject(w+"."+k, val, report, count)
+		case "schemamap":
+			po, ok := val.(*Obj)
+			if !ok {
+				bad("an object")
+				break
+			}
+			for _, pk := range po.Keys {
+				CheckSchemaObject(w+".properties."+pk, po.M[pk], report, count)
+			}
+			for _, pk := range po.Dup {
+				report("schema-duplicate-property", fmt.Sprintf("%s.properties has %q twice", w, pk))
+			}
+		case "boolOrSchema":
+			if _, ok := val.(bool); !ok {
+				CheckSchemaObject(w+"."+k, val, report, count)
+			}
+		}
+	}
+	// required names should be properties when properties are listed and no composition/additional properties can supply them
+	if req, ok := o.M["required"].([]interface{}); ok {
+		if po, ok := o.M["properties"].(*Obj); ok {
+			_, hasAllOf := o.M["allOf"]
+			for _, e := range req {
+				if s, ok := e.(string); ok && !hasAllOf {
+					if _, ok := po.M[s]; !ok {
+						count("required_without_property")
+					}
+				}
+			}
+		}
+	}
+}
+
+// SchemaPositions calls f for every position of the document where a Schema Object stands.
+func SchemaPositions(top *Obj, f func(w string, v interface{})) {
+	if c := top.Obj("components"); c != nil {
+		if s := c.Obj("schemas"); s != nil {
+			for _, k := range s.Keys {
+				f("components.schemas."+k, s.M[k])
+			}
+		}
+	}
+	content := func(w string, holder *Obj) {
+		if holder == nil {
+			return
+		}
+		if ct := holder.Obj("content"); ct != nil {
+			for _, mt := range ct.Keys {
+				if mo := ct.Obj(mt); mo != nil {
+					if sv, ok := mo.M["schema"]; ok {
+						f(w+".content["+mt+"].schema", sv)
+					}
+				}
+			}
+		}
+	}
+	params := func(w string, arr []interface{}) {
+		for i, p := range arr {
+			if po, ok := p.(*Obj); ok {
+				if sv, ok := po.M["schema"]; ok {
+					f(fmt.Sprintf("%s.parameters[%d].schema", w, i), sv)
+				}
+				content(fmt.Sprintf("%s.parameters[%d]", w, i), po)
+			}
+		}
+	}
+	paths := top.Obj("paths")
+	if paths == nil {
+		return
+	}
+	for _, pk := range paths.Keys {
+		pi := paths.Obj(pk)
+		if pi == nil {
+			continue
+		}
+		params("paths["+pk+"]", pi.Arr("parameters"))
+		for _, me := range []string{"get", "put", "post", "patch", "delete", "options", "head", "trace"} {
+			op := pi.Obj(me)
+			if op == nil {
+				continue
+			}
+			w := "paths[" + pk + "]." + me
+			params(w, op.Arr("parameters"))
+			content(w+".requestBody", op.Obj("requestBody"))
+			if rs := op.Obj("responses"); rs != nil {
+				for _, rk := range rs.Keys {
+					ro := rs.Obj(rk)
+					content(w+".responses."+rk, ro)
+					if ro != nil {
+						if hs := ro.Obj("headers"); hs != nil {
+							for _, hk := range hs.Keys {
+								if ho := hs.Obj(hk); ho != nil {
+									if sv, ok := ho.M["schema"]; ok {
+										f(w+".responses."+rk+".headers."+hk+".schema", sv)
+									}
+								}
+							}
+						}
+					}
+				}
+			}
+		}
+	}
 }
